@@ -346,7 +346,9 @@ def layout_cases(draw):
             "layout": dict(zip(fields, cols)), "square": draw(st.booleans()), "chunksize": draw(st.sampled_from([1, 3, 1000])),
             "field_order": list(draw(st.permutations(["x", "count"]))),
             "xvals": draw(st.lists(st.integers(1, 40), min_size=len(recs), max_size=len(recs))),
-            "x_dtype": draw(st.sampled_from([None, "float", "int"]))}
+            "x_dtype": draw(st.sampled_from([None, "float", "int"])),
+            # pre-binned routes: real-valued counts declared through the documented --field count=<n>:dtype=float64
+            "count_float": draw(st.booleans())}
 
 
 def check_layout(case, ctx: Ctx):
@@ -380,9 +382,10 @@ def check_layout(case, ctx: Ctx):
                     row[0], row[1] = str(b1), str(b2)
                 else:
                     row[0:6] = [br[b1][0], str(br[b1][1]), str(br[b1][2]), br[b2][0], str(br[b2][1]), str(br[b2][2])]
-                row[lay["count"]], row[lay["x"]] = str(r[6] + 1), str(xv)
+                cval = r[6] + 1 + (0.25 if case.get("count_float") else 0)
+                row[lay["count"]], row[lay["x"]] = str(cval), str(xv)
                 key = (min(b1, b2), max(b1, b2)) if tril == "reflect" else (b1, b2)
-                want.setdefault(key, []).append((r[6] + 1, xv))
+                want.setdefault(key, []).append((cval, xv))
             lines.append("\t".join(row))
             kept.append(r)
         with open(txt, "w") as f:
@@ -398,7 +401,7 @@ def check_layout(case, ctx: Ctx):
             cs = 1 if len(flat) != len(set(flat)) else case["chunksize"]
             args = ["load", "-f", route, bins_arg, txt, out, "--chunksize", cs]
             for fld in case["field_order"]:
-                args += ["--field", xspec if fld == "x" else f"count={lay['count'] + 1}"]
+                args += ["--field", xspec if fld == "x" else f"count={lay['count'] + 1}" + (":dtype=float64" if case.get("count_float") else "")]
         if case["square"]:
             args.append("-N")
         rc, _, exc = run_cli(args)
@@ -419,7 +422,7 @@ def check_layout(case, ctx: Ctx):
 
 
 CHECKS = {"dump": check_dump, "table": check_table, "roundtrip": check_roundtrip, "layout": check_layout,
-          "cli": c09.check_cli}
+          "cli": c09.check_cli, "cli_load_c05": lambda case, ctx: c05.check_cli_load(dict(case, part="cli_load"), ctx)}
 
 
 def replay(ctx: Ctx, case):
@@ -435,5 +438,8 @@ def run(ctx: Ctx):
     if not run_given(ctx, "roundtrip", roundtrip_cases(), check_roundtrip, per_shard(ctx, 320 if q else 8000), batch=20):
         return
     if not run_given(ctx, "layout", layout_cases(), check_layout, per_shard(ctx, 320 if q else 8000), batch=20):
+        return
+    if not run_given(ctx, "load-shifted", c05.cli_load_cases().filter(lambda c: c["shift"] > 0).map(lambda c: dict(c, part="cli_load_c05", bad=None)),
+                     CHECKS["cli_load_c05"], per_shard(ctx, 96 if q else 2000), batch=12):
         return
     run_given(ctx, "zoomify-spec", c09.cli_cases(), c09.check_cli, per_shard(ctx, 24 if q else 400), batch=6)
